@@ -1,4 +1,5 @@
 import Lessm.Props.C04
+import Lessm.Props.C04Sign
 open Lessm.Expr
 #print axioms C04_table
 #print axioms C04_prodprec
@@ -7,3 +8,10 @@ open Lessm.Expr
 #print axioms C04_eval
 #print axioms C04_eval_zero
 #print axioms C04
+#print axioms Lessm.Sign.C04_sign_clean
+#print axioms Lessm.Sign.C04_sign_fixed
+#print axioms Lessm.Sign.C04_sign_idem
+#print axioms Lessm.Sign.C04_sign_conservative
+#print axioms Lessm.Sign.C04_sign_value
+#print axioms Lessm.Sign.C04_sign_reading
+#print axioms Lessm.Sign.C04_sign_local
